@@ -25,15 +25,59 @@ def _i(v):
     return e
 
 
+# The year part of the calendar is ABSTRACT for symbolic years: YD(y) = days before 1 January of year y and LEAP(y)
+# are uninterpreted; the only facts used are  YD(y+1) == YD(y) + 365 + [LEAP(y)]  and, for two years that are
+# compared, y1 < y2 => YD(y1+1) <= YD(y2).  Proofs therefore hold for ANY leap-year rule with 365/366-day years, in
+# particular the Gregorian one (whose closed form is used for concrete years and is validated against CPython, A5).
+_YD = z3.Function("YD", z3.IntSort(), z3.IntSort())
+_LEAP = z3.Function("LEAP", z3.IntSort(), z3.BoolSort())
+
+
+def _py_leap(y):
+    return (y % 4 == 0 and y % 100 != 0) or y % 400 == 0
+
+
+def _py_dby(y):
+    y1 = y - 1
+    return y1 * 365 + y1 // 4 - y1 // 100 + y1 // 400
+
+
 def is_leap(y):
-    y = _i(y)
-    return z3.Or(z3.And(y % 4 == 0, y % 100 != 0), y % 400 == 0)
+    y = z3.simplify(_i(y))
+    if z3.is_int_value(y):
+        return z3.BoolVal(_py_leap(y.as_long()))
+    return _LEAP(y)
 
 
 def days_before_year(y):
     """ordinal of 31 Dec of year y-1 (date(y,1,1).toordinal() - 1)"""
-    y1 = _i(y) - 1
-    return y1 * 365 + y1 / 4 - y1 / 100 + y1 / 400      # z3 Int `/` is floor division for positive divisors
+    y = z3.simplify(_i(y))
+    if z3.is_int_value(y):
+        return z3.IntVal(_py_dby(y.as_long()))
+    _year_fact(y)
+    return _YD(y)
+
+
+def _year_fact(y):
+    """YD(y+1) == YD(y) + 365 + [LEAP(y)], once per path and year term"""
+    c = sym._CTX[0]
+    if c is None:
+        return
+    seen = c.ghost.setdefault("yd_facts", set())
+    k = y.sexpr()
+    if k in seen:
+        return
+    if not seen:
+        # the uninterpreted year functions agree with the real calendar at the ends of datetime's range
+        for yy in (1, 2, 9999, 10000):
+            c.pc.append(_YD(yy) == _py_dby(yy))
+            c.pc.append(_LEAP(yy) == _py_leap(yy))
+    seen.add(k)
+    nxt = z3.simplify(y + 1)
+    c.pc.append(_YD(nxt) == _YD(y) + 365 + z3.If(_LEAP(y), 1, 0))
+    # anchor to the real calendar at both ends of the supported range
+    c.pc.append(z3.Implies(y >= 1, _YD(y) >= 365 * (y - 1)))
+    c.pc.append(z3.Implies(z3.And(y >= 1, y <= 9999), z3.And(_YD(y) >= _py_dby(1) + 365 * (y - 1), _YD(y) <= _py_dby(9999) - 365 * (9999 - y))))
 
 
 _CUM = [0, 31, 59, 90, 120, 151, 181, 212, 243, 273, 304, 334]   # days before month m in a non-leap year
@@ -292,13 +336,14 @@ def add_timedelta(d, us):
 
 
 def calendar_facts(y1, y2):
-    """consequences of the closed forms that spare the solver the div/mod reasoning (A5: validated with the calendar):
-    a year has 365 or 366 days, and the first days of different years are at least a year apart"""
-    y1, y2 = _i(y1), _i(y2)
+    """year-length facts relating two years (A5): the first days of different years are at least a year apart"""
+    y1, y2 = z3.simplify(_i(y1)), z3.simplify(_i(y2))
     d = days_before_year
-    return z3.And(d(y1 + 1) == d(y1) + 365 + z3.If(is_leap(y1), 1, 0),
-                  d(y2 + 1) == d(y2) + 365 + z3.If(is_leap(y2), 1, 0),
-                  z3.Implies(y1 < y2, d(y1 + 1) <= d(y2)), z3.Implies(y2 < y1, d(y2 + 1) <= d(y1)))
+
+    def nxt(y):
+        return d(z3.simplify(y + 1))
+    return z3.And(z3.Implies(y1 < y2, nxt(y1) <= d(y2)), z3.Implies(y2 < y1, nxt(y2) <= d(y1)),
+                  nxt(y1) == d(y1) + 365 + z3.If(is_leap(y1), 1, 0), nxt(y2) == d(y2) + 365 + z3.If(is_leap(y2), 1, 0))
 
 
 def datetime_model(interp, *args, **kwargs):
@@ -344,12 +389,7 @@ def validate_calendar(tier="quick", seed=0):
     """checks the closed forms against CPython; returns dict(evaluations, failures)"""
     import random
 
-    def py_leap(y):
-        return (y % 4 == 0 and y % 100 != 0) or y % 400 == 0
-
-    def py_dby(y):
-        y1 = y - 1
-        return y1 * 365 + y1 // 4 - y1 // 100 + y1 // 400
+    py_leap, py_dby = _py_leap, _py_dby
     years = range(1, 10000) if tier == "thorough" else \
         sorted(set(random.Random(seed).sample(range(1, 10000), 380)) | {1, 4, 100, 400, 1900, 1964, 1965, 2000, 2024, 2064, 2065, 2100, 9999})
     evals, failures = 0, []
@@ -372,3 +412,18 @@ def validate_calendar(tier="quick", seed=0):
                 if not (m == 12 and d == 31) and (d < dim) and n + 1 != py_dby(y) + cum + d + 1:
                     failures.append(("consecutive", y, m, d))
     return {"evaluations": evals, "failures": failures[:5], "years": len(years), "exhaustive": tier == "thorough"}
+
+
+def exact_calendar(formulas):
+    """replace the abstract year functions by the Gregorian closed forms (used to confirm or refute a `sat` answer
+    obtained under the abstraction, which may be an artefact of it)"""
+    y = z3.Int("y!cal")
+    y1 = y - 1
+    yd_body = y1 * 365 + y1 / 4 - y1 / 100 + y1 / 400
+    leap_body = z3.Or(z3.And(y % 4 == 0, y % 100 != 0), y % 400 == 0)
+    out = []
+    for f in formulas:
+        g = z3.substitute_funs(f, (_YD, z3.substitute(yd_body, (y, z3.Var(0, z3.IntSort())))),
+                               (_LEAP, z3.substitute(leap_body, (y, z3.Var(0, z3.IntSort())))))
+        out.append(g)
+    return out
